@@ -175,6 +175,9 @@ func (w *World) planLinkFaults(max int) {
 		if prev != nil {
 			prev(l)
 		}
+		if w.QuiesceStarted {
+			return // faults have stopped: links created from now on are left alone
+		}
 		if budget <= 0 || !scnChance(1, 2) {
 			return
 		}
